@@ -1,4 +1,4 @@
-import TR.Lemmas.Retry
+import TR.Lemmas.RetryLogOrder
 /-!
 # C05 — retry makes a bounded number of attempts and returns the last outcome
 
@@ -18,6 +18,13 @@ amounts, and other holders of the shared budget depositing and withdrawing in be
 `cl` is the record of request `c` in the reached state: `cl.atts` is its attempt history (newest
 first), `callsOf c log` the serials of its `inner_call` events in the event log that is compared
 with the real code.
+
+The event log `(run cfg ops).log` is the **timestamped** log: a list of lines `(t, e)`, `t` the instant (ms) the driver
+prints in front of the line (`log_stamps_are_the_printed_instants`), `e` an `inner_call` / `inner_done` / `inner_drop` /
+`result` / probe event or a budget line `budget c grant|refused` (`REv.withdraw c granted`: the answer to a `try_withdraw`
+made by the loop of request `c`). `linesOf c log` are the lines of request `c`. The section "the timestamped log" ties every
+ghost field used by the other theorems (`Att.start`, `Att.seen`, `Att.out`, `Caller.grants`, `Caller.result`) to lines of
+that log (`request_lines_of_the_log`, `inner_call_line_iff`, `inner_done_line_iff`) and restates the property over it.
 -/
 namespace TR.Props.C05
 open TR TR.Retry
@@ -70,7 +77,7 @@ calls the inner service at least once, whatever `max_attempts` is — also for 0
 theorem first_poll_calls_inner (cfg : Cfg) (ops : List Op) (c : Nat) (cl : Caller) (ds : List Nat)
     (h : lookup (run cfg ops).callers c = some cl) (hp : cl.phase = .fresh) :
     ∃ rest, (stepS cfg (run cfg ops) (.poll c ds)).log
-      = (run cfg ops).log ++ Ev.innerCall c (run cfg ops).serial :: rest :=
+      = (run cfg ops).log ++ ((run cfg ops).now, REv.innerCall c (run cfg ops).serial) :: rest :=
   poll_fresh_calls ds h hp
 
 /-- **At most `max(1, max_attempts)`.** In every reachable state the number of `inner_call`
@@ -363,9 +370,9 @@ theorem retry_starts_when_polled (cfg : Cfg) (ops : List Op) (c u : Nat) (cl : C
       (cfg.spread tl.length = 0 → u = t + ceilMs (cfg.backoff tl.length))) ∧
     ((readyOf (run cfg ops).rdy).1 = true →
       ∃ rest, (stepS cfg (run cfg ops) (.poll c ds)).log
-        = (run cfg ops).log ++ Ev.innerCall c (run cfg ops).serial :: rest) ∧
+        = (run cfg ops).log ++ ((run cfg ops).now, REv.innerCall c (run cfg ops).serial) :: rest) ∧
     ((readyOf (run cfg ops).rdy).1 = false →
-      (stepS cfg (run cfg ops) (.poll c ds)).log = (run cfg ops).log ++ [Ev.result c readyErr] ∧
+      (stepS cfg (run cfg ops) (.poll c ds)).log = (run cfg ops).log ++ [((run cfg ops).now, REv.result c readyErr)] ∧
       (stepS cfg (run cfg ops) (.poll c ds)).b = (run cfg ops).b) := by
   have hc : CInv cfg cl := (sinv_reachable cfg ops).all _ (mem_of_lookup h)
   have hph := hc.phase
@@ -483,7 +490,7 @@ an inner call that is ready is observed by the poll in that step (first new even
 theorem ready_outcome_is_observed (cfg : Cfg) (ops : List Op) (c k due : Nat) (o : Out) (cl : Caller) (ds : List Nat)
     (h : lookup (run cfg ops).callers c = some cl) (hp : cl.phase = .calling k due o)
     (hd : due ≤ (run cfg ops).now) (hn : o ≠ .never) :
-    ∃ rest, (stepS cfg (run cfg ops) (.poll c ds)).log = (run cfg ops).log ++ Ev.innerDone c k o :: rest :=
+    ∃ rest, (stepS cfg (run cfg ops) (.poll c ds)).log = (run cfg ops).log ++ ((run cfg ops).now, REv.innerDone c k o) :: rest :=
   poll_calling_observes ds h hp hd hn
 
 /-- … and after any poll the request is finished or genuinely waiting (for its inner call or for
@@ -495,6 +502,361 @@ theorem poll_runs_until_blocked (cfg : Cfg) (ops : List Op) (c : Nat) (cl : Call
       tickC cfg (stepS cfg (run cfg ops) (.poll c ds)).now (stepS cfg (run cfg ops) (.poll c ds)).serial
         (stepS cfg (run cfg ops) (.poll c ds)).b c cl' = none :=
   TR.Retry.poll_runs_until_blocked ds (sinv_reachable cfg ops) h
+
+/-! ## the timestamped log
+
+Everything above that speaks about the ghost record of a request (`cl.atts`, `Att.start`, `Att.seen`, `Att.out`,
+`cl.grants`) is, by the theorems of this section, a statement about lines of the event log that is compared with the
+implementation's — with their instants and their order. -/
+
+/-- **The instants of the log are the instants the driver prints.** Every operation only appends lines to the log, and each
+appended line carries the instant of the state the operation leads to — `Driver.applyStep` prints exactly that instant
+(`t=<now>`) in front of the line, and the correspondence check compares it with the implementation's. -/
+theorem log_stamps_are_the_printed_instants (cfg : Cfg) (s : State) (op : Op) :
+    (stepS cfg s op).log.take s.log.length = s.log ∧
+    ∀ p ∈ (stepS cfg s op).log.drop s.log.length, p.1 = (stepS cfg s op).now := by
+  obtain ⟨evs, h1, h2⟩ := step_log cfg s op
+  rw [h1]
+  exact ⟨by simp, by simpa using h2⟩
+
+/-- … and never decrease along the log, nor run ahead of the clock: the log is in chronological order. -/
+theorem log_instants_never_decrease (cfg : Cfg) (ops : List Op) :
+    (∀ p ∈ (run cfg ops).log, p.1 ≤ (run cfg ops).now) ∧ (run cfg ops).log.Pairwise (fun a b => a.1 ≤ b.1) :=
+  monoLog_reachable cfg ops
+
+/-- **The full bridge: the lines of a request are what its record says** (`Shape`, `TR.Lemmas.RetryLog`): one block
+`inner_call (at start), inner_done (at seen)[, budget c grant (at seen)]` per attempt that failed and was followed by a
+back-off, oldest first, then — by phase — nothing (in a back-off), the `inner_call` line of the attempt in flight, the lines
+`inner_call, inner_done[, budget c refused], result` of the final attempt (the last three at one instant), the `result` line
+of a readiness error (no earlier than the end of the back-off), or `inner_call, inner_drop` of a cancelled attempt. A request
+that never arrived has no line. -/
+theorem request_lines_of_the_log (cfg : Cfg) (ops : List Op) (c : Nat) :
+    match lookup (run cfg ops).callers c with
+    | some cl => Shape cfg c cl (linesOf c (run cfg ops).log)
+    | none => linesOf c (run cfg ops).log = [] :=
+  linv_reachable cfg ops c
+
+/-- … its `inner_call` lines, with their instants, are exactly its recorded attempts: `(t, inner_call c k)` is a line of the
+log iff some attempt of the request has serial `k` and started at `t` (`Att.start` *is* the instant of the line) … -/
+theorem inner_call_line_iff (cfg : Cfg) (ops : List Op) (c : Nat) (cl : Caller)
+    (h : lookup (run cfg ops).callers c = some cl) (t k : Nat) :
+    (t, REv.innerCall c k) ∈ (run cfg ops).log ↔ ∃ a ∈ cl.atts, a.start = t ∧ a.k = k := by
+  have hc : CInv cfg cl := (sinv_reachable cfg ops).all _ (mem_of_lookup h)
+  have hs := linv_reachable cfg ops c
+  simp only [h] at hs
+  rw [← call_line_iff hc hs t k]
+  simp [linesOf, ofReq]
+
+/-- … and its `inner_done` lines, with their instants and outcomes, are exactly its observed attempts: `(t, inner_done c k o)`
+is a line of the log iff some attempt of the request has serial `k`, outcome `o` and was observed at `t` (`Att.seen`,
+`Att.out` *are* the instant and the outcome on the line). -/
+theorem inner_done_line_iff (cfg : Cfg) (ops : List Op) (c : Nat) (cl : Caller)
+    (h : lookup (run cfg ops).callers c = some cl) (t k : Nat) (o : Out) :
+    (t, REv.innerDone c k o) ∈ (run cfg ops).log ↔ ∃ a ∈ cl.atts, a.seen = some t ∧ a.k = k ∧ a.out = o := by
+  have hc : CInv cfg cl := (sinv_reachable cfg ops).all _ (mem_of_lookup h)
+  have hs := linv_reachable cfg ops c
+  simp only [h] at hs
+  rw [← done_line_iff hc hs t k o]
+  simp [linesOf, ofReq]
+
+/-- **Every attempt follows the script** — not only the newest (`returns_last_outcome`): attempt number `i` of a request
+(`a.idx = i` = the number of attempts before it) has the outcome and the latency of step `i` of the request's script (`ok` at
+once when the script is exhausted), and was observed no earlier than its inner future was ready. With `inner_done_line_iff`:
+the outcome on the `i`-th `inner_done` line of a request is the `i`-th scripted outcome. -/
+theorem every_attempt_follows_script (cfg : Cfg) (ops : List Op) (c : Nat) (cl : Caller)
+    (h : lookup (run cfg ops).callers c = some cl) (pre rest : List Att) (a : Att) (ha : cl.atts = pre ++ a :: rest) :
+    a.idx = rest.length ∧ a.out = (cl.plan0.getD a.idx { lat := 0, out := .ok }).out ∧
+    a.due = a.start + (cl.plan0.getD a.idx { lat := 0, out := .ok }).lat ∧ (∀ t, a.seen = some t → a.due ≤ t) := by
+  have hc : CInv cfg cl := (sinv_reachable cfg ops).all _ (mem_of_lookup h)
+  exact hist_member pre hc.hist ha
+
+/-- **Between 1 and `max(1, max_attempts)` `inner_call` lines per request**: at most `max 1 max_attempts` in every reachable
+log; at least one as soon as the request has been polled and not been dropped before its first poll — in particular whenever
+it has a `result` line. -/
+theorem inner_call_lines_between_one_and_max (cfg : Cfg) (ops : List Op) (c : Nat) (cl : Caller)
+    (h : lookup (run cfg ops).callers c = some cl) :
+    (callsOf c (run cfg ops).log).length ≤ max 1 cl.maxA ∧
+    ((cl.phase ≠ .fresh ∧ cl.phase ≠ .dropped) ∨ (∃ t r, (t, REv.result c r) ∈ (run cfg ops).log) →
+      1 ≤ (callsOf c (run cfg ops).log).length) := by
+  refine ⟨at_most_max cfg ops c cl h, ?_⟩
+  obtain ⟨h1, _⟩ := log_matches_history cfg ops c cl h
+  have hc : CInv cfg cl := (sinv_reachable cfg ops).all _ (mem_of_lookup h)
+  have hph := hc.phase
+  have key : cl.atts ≠ [] → 1 ≤ (callsOf c (run cfg ops).log).length := by
+    intro hne
+    rw [h1]
+    cases ha : cl.atts with
+    | nil => exact absurd ha hne
+    | cons a tl => simp [serials, ha]
+  rintro (⟨hf, hd⟩ | ⟨t, r, hm⟩)
+  · apply key
+    intro he
+    cases hp : cl.phase with
+    | fresh => exact hf hp
+    | dropped => exact hd hp
+    | calling k due o => simp only [PhaseInv, hp] at hph; obtain ⟨a, tl, ha, _⟩ := hph; simp [ha] at he
+    | sleeping u => simp only [PhaseInv, hp] at hph; obtain ⟨a, tl, t, d, ds, ha, _⟩ := hph; simp [ha] at he
+    | done => simp only [PhaseInv, hp] at hph; obtain ⟨a, tl, t, ha, _⟩ := hph; simp [ha] at he
+    | unready => simp only [PhaseInv, hp] at hph; obtain ⟨a, tl, t, ha, _⟩ := hph; simp [ha] at he
+  · have hr : r ∈ resultsOf c (run cfg ops).log := by
+      simp only [resultsOf, List.mem_filterMap]
+      exact ⟨(t, REv.result c r), hm, by simp [resultOf]⟩
+    exact at_least_one cfg ops c cl h r hr
+
+/-- **The caller's result is the outcome on the LAST `inner_done` line of the request — or the readiness error that ended
+it.** If `(t, result c r)` is a line of the log, the lines of request `c` are
+
+    … , (s, inner_call c k), (ts, inner_done c k o), W, (t, result c r)
+
+with nothing after the `result` line and `W` at most one budget line (so the `inner_done` line shown is the request's last,
+and `k` the serial of its last `inner_call` line), `o` the scripted outcome of that attempt, and either
+* `r` is that outcome (`ok:k` / `err:inner<kind>:k` / panic), delivered at the instant of the `inner_done` line (`ts = t`), `W`
+  empty or the refusal `budget c refused` at `t`; or
+* `r` is the readiness error `err:inner9:0`: the outcome `o` was an error the predicate accepts, attempts were left, `W` is
+  (with a budget) the grant of the retry that was never made, the `result` comes no earlier than the end of the back-off
+  (`ts + ⌈d/1000⌉ ≤ t`, `d` the delay slept), and the inner service's readiness script contains an error. -/
+theorem result_is_the_last_inner_done_line (cfg : Cfg) (ops : List Op) (c : Nat) (cl : Caller)
+    (h : lookup (run cfg ops).callers c = some cl) (t : Nat) (r : Res)
+    (hm : (t, REv.result c r) ∈ (run cfg ops).log) :
+    ∃ pre s k ts o W,
+      linesOf c (run cfg ops).log
+        = pre ++ [(s, REv.innerCall c k), (ts, REv.innerDone c k o)] ++ W ++ [(t, REv.result c r)] ∧
+      (callsOf c (run cfg ops).log).getLast? = some k ∧
+      o = (cl.plan0.getD (cl.atts.length - 1) { lat := 0, out := .ok }).out ∧
+      ((r = resOf k o ∧ ts = t ∧ (W = [] ∨ W = [(t, REv.withdraw c false)])) ∨
+       (r = readyErr ∧ 'e' ∈ cfg.rdy ∧ (∃ kd, o = .err kd ∧ cfg.pred kd = true) ∧ cl.atts.length + 1 ≤ cl.maxA ∧
+          W = (if cfg.budget.isSome then [(ts, REv.withdraw c true)] else []) ∧
+          ∃ d, cl.sleeps.head? = some d ∧ ts + ceilMs d ≤ t)) := by
+  have hc : CInv cfg cl := (sinv_reachable cfg ops).all _ (mem_of_lookup h)
+  have hs := linv_reachable cfg ops c
+  simp only [h] at hs
+  have hm' : (t, REv.result c r) ∈ linesOf c (run cfg ops).log := by simp [linesOf, ofReq, hm]
+  obtain ⟨a, tl, ts, W, ha, hseen, hP, hcase⟩ := result_shape hc hs t r hm'
+  obtain ⟨h1, _⟩ := log_matches_history cfg ops c cl h
+  have hh := hc.hist
+  rw [ha] at hh
+  refine ⟨closed cfg c tl, a.start, a.k, ts, a.out, W, hP, by simp [h1, serials, ha], ?_, ?_⟩
+  · have := hh.2.1
+    rw [hh.1] at this
+    simpa [ha] using this
+  · rcases hcase with ⟨_, hr, hts, hW⟩ | ⟨hu, hr, hW, hd⟩
+    · left
+      refine ⟨hr, hts, ?_⟩
+      rcases hW with ⟨hW, _⟩ | ⟨hW, _⟩
+      · exact Or.inl hW
+      · exact Or.inr hW
+    · right
+      have hph := hc.phase
+      simp only [PhaseInv, hu] at hph
+      obtain ⟨a', tl', _, ha', _, _, hret, _, hroom⟩ := hph
+      rw [ha] at ha'; cases ha'
+      exact ⟨hr, (rinv_reachable cfg ops).2 _ (mem_of_lookup h) hu, hret, by simp [ha]; omega, hW, hd⟩
+
+/-- **Consecutive `inner_call` lines of a request are at least the answered back-off apart.** For any two consecutive
+attempts `q` (number `j`) and `p` (number `j + 1`) of a request, its lines are
+
+    X, (q.start, inner_call c q.k), (t, inner_done c q.k q.out)[, (t, budget c grant)], (p.start, inner_call c p.k), …
+
+with exactly `j` `inner_call` lines in `X` — these are the `j`-th and `j+1`-st `inner_call` lines of the request (zero based),
+nothing of the request between them but the outcome of the first and, with a budget, its grant — and their instants satisfy
+`q.start ≤ t` and, in **microseconds**, `t·1000 + d ≤ p.start·1000` (so `q.start·1000 + d ≤ p.start·1000`), rounded up by the
+timer: `t + ⌈d/1000⌉ ≤ p.start`, where `d = p.wait` is the delay the interval function answered for retry `j` — inside the
+policy's envelope `[backoff j, backoff j + spread j]`, `= backoff j` for an exact policy. -/
+theorem consecutive_inner_calls_wait_the_backoff (cfg : Cfg) (ops : List Op) (c : Nat) (cl : Caller)
+    (h : lookup (run cfg ops).callers c = some cl)
+    (pre rest : List Att) (p q : Att) (hpq : cl.atts = pre ++ p :: q :: rest) :
+    ∃ X Y t,
+      linesOf c (run cfg ops).log
+        = X ++ [(q.start, REv.innerCall c q.k), (t, REv.innerDone c q.k q.out)] ++
+            (if cfg.budget.isSome then [(t, REv.withdraw c true)] else []) ++ (p.start, REv.innerCall c p.k) :: Y ∧
+      (callsOf c X).length = rest.length ∧ q.idx = rest.length ∧
+      q.start ≤ t ∧ t * 1000 + p.wait ≤ p.start * 1000 ∧ q.start * 1000 + p.wait ≤ p.start * 1000 ∧
+      t + ceilMs p.wait ≤ p.start ∧
+      cfg.backoff q.idx ≤ p.wait ∧ p.wait ≤ cfg.backoff q.idx + cfg.spread q.idx ∧
+      (cfg.spread q.idx = 0 → p.wait = cfg.backoff q.idx) := by
+  have hc : CInv cfg cl := (sinv_reachable cfg ops).all _ (mem_of_lookup h)
+  have hs := linv_reachable cfg ops c
+  simp only [h] at hs
+  obtain ⟨Y, hP⟩ := consecutive_attempts hc hs pre rest p q hpq
+  obtain ⟨hidx, _, t, hseen, hdue, _, _, hlo, hhi, hus, hms⟩ := waits_at_least_backoff cfg ops c cl h pre rest p q hpq
+  have hstart : q.start ≤ t := by
+    have hq := hist_member (pre ++ [p]) hc.hist (a := q) (rest := rest) (by simp [hpq])
+    have h3 := hq.2.2.1
+    generalize (cl.plan0.getD q.idx { lat := 0, out := .ok }).lat = lat at h3
+    omega
+  have hceil := le_ceilMs p.wait
+  have hlen : (callsOf c (closed cfg c rest)).length = rest.length := by simp [callsOf_closed]
+  refine ⟨closed cfg c rest, Y, t, ?_, hlen, hidx, hstart, hus, ?_, hms, hlo, hhi, ?_⟩
+  · rw [hP]; simp [block, hseen]
+  · have : q.start * 1000 ≤ t * 1000 := Nat.mul_le_mul_right _ hstart
+    exact Nat.le_trans (Nat.add_le_add_right this _) hus
+  · intro h0; exact Nat.le_antisymm (by rw [h0] at hhi; exact hhi) hlo
+
+/-- **Every `inner_call` line after the first is preceded by a `grant` line for it.** With a budget configured: whenever
+`(t, inner_call c k)` is a line of request `c` and not its first line, the line of the request right before it is a grant
+`(t', budget c grant)` — the request's own, obtained after its previous `inner_call` (by
+`consecutive_inner_calls_wait_the_backoff` it stands right after the `inner_done` line of the failed attempt, at the same
+instant). Without a budget there is no budget line at all. -/
+theorem every_retry_is_preceded_by_its_grant (cfg : Cfg) (ops : List Op) (c : Nat) (cl : Caller)
+    (h : lookup (run cfg ops).callers c = some cl) :
+    (cfg.budget ≠ none → ∀ X t k Y, linesOf c (run cfg ops).log = X ++ (t, REv.innerCall c k) :: Y →
+      X = [] ∨ ∃ X' t', X = X' ++ [(t', REv.withdraw c true)]) ∧
+    (cfg.budget = none → ∀ t c' g, (t, REv.withdraw c' g) ∉ (run cfg ops).log) := by
+  have hc : CInv cfg cl := (sinv_reachable cfg ops).all _ (mem_of_lookup h)
+  have hs := linv_reachable cfg ops c
+  simp only [h] at hs
+  refine ⟨?_, fun hb => no_budget_line_reachable hb ops⟩
+  intro hb X t k Y hP
+  have hb' : cfg.budget.isSome = true := by
+    cases hx : cfg.budget with
+    | none => exact absurd hx hb
+    | some _ => rfl
+  exact grant_precedes_retry hc hs hb' X t c k Y hP
+
+/-- **The budget lines of a request are its recorded answers** (`log_matches_history` for `cl.grants`): the answers on the
+`budget c grant|refused` lines of the log, in order, are the request's recorded answers of `try_withdraw` (oldest first). So
+`no_grant_no_retry` is a statement about lines of the log: with a budget, the number of `grant` lines of a request is at least
+the number of its `inner_call` lines after the first (its retries) and at most one more; every budget line of the request
+but the last is a grant; and a request whose last budget line is a refusal is finished. -/
+theorem budget_lines_are_the_grants (cfg : Cfg) (ops : List Op) (c : Nat) (cl : Caller)
+    (h : lookup (run cfg ops).callers c = some cl) :
+    withdrawsOf c (run cfg ops).log = cl.grants.reverse ∧
+    (cfg.budget ≠ none →
+      (callsOf c (run cfg ops).log).length - 1 ≤ (withdrawsOf c (run cfg ops).log).count true ∧
+      (withdrawsOf c (run cfg ops).log).count true ≤ (callsOf c (run cfg ops).log).length - 1 + 1 ∧
+      (∀ g ∈ (withdrawsOf c (run cfg ops).log).dropLast, g = true) ∧
+      ((withdrawsOf c (run cfg ops).log).getLast? = some false → cl.result ≠ none)) := by
+  have hw := winv_reachable cfg ops c
+  simp only [grantsOfC, h] at hw
+  refine ⟨hw, fun hb => ?_⟩
+  obtain ⟨h1, _⟩ := log_matches_history cfg ops c cl h
+  obtain ⟨_, g1, g2, g3, g4, _⟩ := no_grant_no_retry cfg ops c cl h hb
+  have hlen : (callsOf c (run cfg ops).log).length = cl.atts.length := by simp [h1, serials]
+  rw [hw, hlen]
+  simp only [retries_eq, ctTrue] at g1 g2
+  refine ⟨by simpa using g1, by simpa using g2, ?_, ?_⟩
+  · intro g hg
+    rw [List.dropLast_reverse] at hg
+    exact g3 g (by simpa using hg)
+  · intro hl
+    rw [List.getLast?_reverse] at hl
+    exact g4 hl
+
+/-- **A `refused` line ends the request with its last outcome.** If `(t, budget c refused)` is a line of the log, request
+`c` is finished and its lines end
+
+    …, (s, inner_call c k), (t, inner_done c k o), (t, budget c refused), (t, result c <o as a result>)
+
+— the refusal follows the `inner_done` line of the attempt that just failed at the same instant, the `result` line follows at
+once with that attempt's outcome, `o` is an error the predicate accepts with attempts left (the budget is asked last), and no
+line of the request follows. -/
+theorem a_refusal_ends_the_request (cfg : Cfg) (ops : List Op) (c : Nat) (cl : Caller)
+    (h : lookup (run cfg ops).callers c = some cl) (t : Nat)
+    (hm : (t, REv.withdraw c false) ∈ (run cfg ops).log) :
+    cl.phase = .done ∧ ∃ pre s k o,
+      linesOf c (run cfg ops).log
+        = pre ++ [(s, REv.innerCall c k), (t, REv.innerDone c k o), (t, REv.withdraw c false), (t, REv.result c (resOf k o))] ∧
+      cl.result = some (resOf k o) ∧ (callsOf c (run cfg ops).log).getLast? = some k ∧
+      (∃ kd, o = .err kd ∧ cfg.pred kd = true) ∧ cl.atts.length + 1 ≤ cl.maxA := by
+  have hc : CInv cfg cl := (sinv_reachable cfg ops).all _ (mem_of_lookup h)
+  have hs := linv_reachable cfg ops c
+  simp only [h] at hs
+  have hm' : (t, REv.withdraw c false) ∈ linesOf c (run cfg ops).log := by simp [linesOf, ofReq, hm]
+  obtain ⟨a, tl, ha, hd, hseen, hhead, hret, hroom, hP⟩ := refusal_shape hc hs t hm'
+  obtain ⟨h1, _⟩ := log_matches_history cfg ops c cl h
+  have hph := hc.phase
+  simp only [PhaseInv, hd] at hph
+  obtain ⟨a', tl', _, ha', _, hres, _, hwhy, _⟩ := hph
+  rw [ha] at ha'; cases ha'
+  refine ⟨hd, closed cfg c tl, a.start, a.k, a.out, hP, hres, by simp [h1, serials, ha], hret, ?_⟩
+  simp [ha]; omega
+
+/-! ## a readiness error between attempts: the grant is spent, the retry is not made
+
+The behaviour reported in `notes/strengthen-retry-w5.md` §4, as theorems about the model (which follows the code, lib.rs:
+`try_withdraw()` … `sleep(delay).await` … next iteration: `poll_fn(|cx| service.poll_ready(cx)).await?`). The property text
+says "no grant, no retry", not the converse; these theorems make the converse's failure visible. -/
+
+/-- **The step.** A request whose back-off has elapsed (and whose instance has recovered) is polled and the inner service
+fails the readiness poll: the request ends in that step with the readiness error as its only new line — no `inner_call`,
+no budget line —, the budget is exactly what it was (nothing is refunded: neither the balance nor the number of deposits
+changes), and the request keeps the grants it had obtained, the one for this retry included. -/
+theorem readiness_error_refunds_nothing (cfg : Cfg) (ops : List Op) (c u : Nat) (cl : Caller) (ds : List Nat)
+    (h : lookup (run cfg ops).callers c = some cl) (hp : cl.phase = .sleeping u)
+    (hu : u ≤ (run cfg ops).now) (hrec : recovered cfg cl.atts (run cfg ops).now = true)
+    (hr : (readyOf (run cfg ops).rdy).1 = false) :
+    (stepS cfg (run cfg ops) (.poll c ds)).log = (run cfg ops).log ++ [((run cfg ops).now, REv.result c readyErr)] ∧
+    (stepS cfg (run cfg ops) (.poll c ds)).b = (run cfg ops).b ∧
+    (stepS cfg (run cfg ops) (.poll c ds)).deposits = (run cfg ops).deposits ∧
+    ∃ cl', lookup (stepS cfg (run cfg ops) (.poll c ds)).callers c = some cl' ∧ cl'.phase = .unready ∧
+      cl'.grants = cl.grants ∧ cl'.atts = cl.atts ∧ cl'.result = some readyErr ∧
+      (cfg.budget ≠ none → ctTrue cl'.grants = retries cl' + 1) := by
+  have h1 := poll_sleeping_unready (cfg := cfg) ds h hp hu hrec hr
+  obtain ⟨h2, cl', hl', hph, hg, ha, hres⟩ := poll_sleeping_unready_state (cfg := cfg) ds h hp hu hrec hr
+  refine ⟨h1.1, h1.2.1, h2, cl', hl', hph, hg, ha, hres, ?_⟩
+  intro hb
+  have hc : CInv cfg cl := (sinv_reachable cfg ops).all _ (mem_of_lookup h)
+  have hcount := hc.grantsCount hb
+  have hph0 := hc.phase
+  simp only [PhaseInv, hp] at hph0
+  obtain ⟨a, tl, t, d, ds', hatts, _, hsd, _, _, hsl, _⟩ := hph0
+  rw [hg, retries_eq, ha, hcount, hsd, hatts]
+  simp [hsl]
+
+/-- **The reached state.** A request that was ended by a readiness error, under a budget: its lines end with the grant of the
+retry that was never made, followed by the `result` line carrying the readiness error — no `inner_call` line after that
+grant —; it holds one more grant than it made retries (as many grants as inner calls), and that grant stays counted as
+spent in the budget's conservation bound (`shared_budget_bound_counts_grants`): the token is not given back. -/
+theorem readiness_error_spends_grant_without_call (cfg : Cfg) (ops : List Op) (c : Nat) (cl : Caller)
+    (h : lookup (run cfg ops).callers c = some cl) (hu : cl.phase = .unready) (hb : cfg.budget ≠ none) :
+    (∃ pre ts t, linesOf c (run cfg ops).log = pre ++ [(ts, REv.withdraw c true), (t, REv.result c readyErr)]) ∧
+    ctTrue cl.grants = retries cl + 1 ∧
+    (callsOf c (run cfg ops).log).length = ctTrue cl.grants ∧
+    (∀ g ∈ cl.grants, g = true) := by
+  have hc : CInv cfg cl := (sinv_reachable cfg ops).all _ (mem_of_lookup h)
+  have hs := linv_reachable cfg ops c
+  simp only [h] at hs
+  obtain ⟨_, a, tl, t0, ha, _, _, _, hsl, hcalls⟩ := readiness_error_is_the_last_outcome cfg ops c cl h hu
+  have hsh := hs
+  simp only [Shape, hu] at hsh
+  obtain ⟨t, ts, d, hP, hseen, _, _⟩ := hsh
+  have hb' : cfg.budget.isSome = true := by
+    cases hx : cfg.budget with
+    | none => exact absurd hx hb
+    | some _ => rfl
+  have hcount := hc.grantsCount hb
+  refine ⟨?_, ?_, ?_, hc.grantsLive (by simp [hu])⟩
+  · rw [ha] at hseen hP
+    simp at hseen
+    refine ⟨closed cfg c tl ++ [(a.start, REv.innerCall c a.k), (ts, REv.innerDone c a.k a.out)], ts, t, ?_⟩
+    rw [hP]
+    simp [closed, block, hseen, hb']
+  · rw [hcount, hsl, retries_eq, ha]; simp
+  · rw [hcalls, hcount, hsl]
+
+/-- **The conservation bound counts grants, not retries.** Under the hypotheses of `shared_budget_bound`:
+
+    (grants obtained by all requests + grants to other users) × cost + balance ≤ initial + deposits × amount,
+
+and every request has obtained at least as many grants as it made retries — exactly one more while it is in a back-off, and
+for good once it was ended by a readiness error after the back-off (or dropped in it). -/
+theorem shared_budget_bound_counts_grants (cfg : Cfg) (cost amount : Nat) (hok : BudgetOK cost amount cfg)
+    (hb : cfg.budget ≠ none) (ops : List Op) :
+    (totalGrants (run cfg ops) + (run cfg ops).others) * cost + (run cfg ops).b.tokens
+      ≤ cfg.b0.tokens + (run cfg ops).deposits * amount ∧
+    ∀ c cl, lookup (run cfg ops).callers c = some cl →
+      retries cl ≤ ctTrue cl.grants ∧ (cl.phase = .unready → ctTrue cl.grants = retries cl + 1) := by
+  have hg := ginv_reachable hok ops
+  unfold GInv at hg
+  constructor
+  · have : gsum (spent cost) (run cfg ops).callers = totalGrants (run cfg ops) * cost := by
+      rw [totalGrants_eq, ← gsum_mul]; rfl
+    rw [this] at hg
+    simp only [Nat.add_mul]
+    omega
+  · intro c cl h
+    refine ⟨(no_grant_no_retry cfg ops c cl h hb).2.1, fun hu => ?_⟩
+    exact (readiness_error_spends_grant_without_call cfg ops c cl h hu hb).2.1
 
 /-! ## several services, handles and clones of one layer
 
@@ -650,12 +1012,59 @@ example :
        .poll 1 [], .poll 2 [], .adv 4, .poll 1 [], .adv 1, .poll 1 [],
        .arrive 3 none [⟨0, .ok⟩], .poll 3 [],
        .arrive 4 none [⟨2, .err 1⟩, ⟨0, .err 2⟩, ⟨0, .ok⟩], .poll 4 [], .adv 2, .poll 4 [], .adv 5, .poll 4 []]).log
-    = [.innerCall 1 0, .innerDone 1 0 (.err 1),
-       .innerCall 2 1, .innerDone 2 1 (.err 1), .result 2 (.inner 1 1),
-       .innerCall 1 2, .innerDone 1 2 (.err 1), .result 1 (.inner 1 2),
-       .innerCall 3 3, .innerDone 3 3 .ok, .result 3 (.ok 3),
-       .innerCall 4 4, .innerDone 4 4 (.err 1),
-       .innerCall 4 5, .innerDone 4 5 (.err 2), .result 4 (.inner 2 5)] := by decide
+    = [(0, .innerCall 1 0), (0, .innerDone 1 0 (.err 1)), (0, .withdraw 1 true),
+       (0, .innerCall 2 1), (0, .innerDone 2 1 (.err 1)), (0, .withdraw 2 false), (0, .result 2 (.inner 1 1)),
+       (5, .innerCall 1 2), (5, .innerDone 1 2 (.err 1)), (5, .withdraw 1 false), (5, .result 1 (.inner 1 2)),
+       (5, .innerCall 3 3), (5, .innerDone 3 3 .ok), (5, .result 3 (.ok 3)),
+       (5, .innerCall 4 4), (7, .innerDone 4 4 (.err 1)), (7, .withdraw 4 true),
+       (12, .innerCall 4 5), (12, .innerDone 4 5 (.err 2)), (12, .result 4 (.inner 2 5))] := by decide
+
+/-- the operations of the first example above (two requests share the one-token bucket, …) -/
+def opsEx : List Op :=
+  [.arrive 1 none [⟨0, .err 1⟩, ⟨0, .err 1⟩, ⟨0, .ok⟩], .arrive 2 none [⟨0, .err 1⟩, ⟨0, .ok⟩],
+   .poll 1 [], .poll 2 [], .adv 4, .poll 1 [], .adv 1, .poll 1 [],
+   .arrive 3 none [⟨0, .ok⟩], .poll 3 [],
+   .arrive 4 none [⟨2, .err 1⟩, ⟨0, .err 2⟩, ⟨0, .ok⟩], .poll 4 [], .adv 2, .poll 4 [], .adv 5, .poll 4 []]
+
+/-- **the timestamped log, request by request** (`request_lines_of_the_log`): request 1 — a closed block (call, failure, grant,
+all at 0), then the final attempt at 5: call, failure, refusal, result (hypotheses of `result_is_the_last_inner_done_line` and
+`a_refusal_ends_the_request`: the `result` and the `refused` line are in the log); request 4 — the failure is observed at 7,
+the grant stands right there, the retry's `inner_call` follows at 12 = 7 + 5 ms (`every_retry_is_preceded_by_its_grant`,
+`consecutive_inner_calls_wait_the_backoff`); request 2 — refused at once -/
+example :
+    linesOf 1 (run cfgEx opsEx).log
+      = [(0, .innerCall 1 0), (0, .innerDone 1 0 (.err 1)), (0, .withdraw 1 true),
+         (5, .innerCall 1 2), (5, .innerDone 1 2 (.err 1)), (5, .withdraw 1 false), (5, .result 1 (.inner 1 2))] ∧
+    linesOf 4 (run cfgEx opsEx).log
+      = [(5, .innerCall 4 4), (7, .innerDone 4 4 (.err 1)), (7, .withdraw 4 true),
+         (12, .innerCall 4 5), (12, .innerDone 4 5 (.err 2)), (12, .result 4 (.inner 2 5))] ∧
+    linesOf 2 (run cfgEx opsEx).log
+      = [(0, .innerCall 2 1), (0, .innerDone 2 1 (.err 1)), (0, .withdraw 2 false), (0, .result 2 (.inner 1 1))] := by
+  decide
+
+/-- … and their budget lines (`budget_lines_are_the_grants`): request 1 was granted once, then refused -/
+example :
+    withdrawsOf 1 (run cfgEx opsEx).log = [true, false] ∧ withdrawsOf 2 (run cfgEx opsEx).log = [false] ∧
+    withdrawsOf 3 (run cfgEx opsEx).log = [] ∧ withdrawsOf 4 (run cfgEx opsEx).log = [true] := by decide
+
+example : (5, REv.result 1 (.inner 1 2)) ∈ (run cfgEx opsEx).log := by decide
+example : (5, REv.withdraw 1 false) ∈ (run cfgEx opsEx).log := by decide
+example :
+    ((lookup (run cfgEx opsEx).callers 4).map fun cl => cl.atts.map fun a => (a.idx, a.k, a.start, a.seen, a.wait))
+      = some [(1, 5, 12, some 12, 5000), (0, 4, 5, some 7, 0)] := by decide
+
+/-- hypotheses of `readiness_error_refunds_nothing`: the back-off (2 ms) has elapsed, the instance needs no recovery, the
+inner service answers the readiness poll with an error — the poll adds the one `result` line, the bucket keeps its 2 of 3
+tokens (the one taken for this retry is not refunded), the request holds 1 grant and has made 0 retries -/
+example :
+    let cfg : Cfg := { max := 4, backoff := fun _ => 2000, budget := some (bucket 3), b0 := ⟨3, 3⟩, rdy := ['e'] }
+    let s := run cfg [.arrive 1 none [⟨0, .err 1⟩, ⟨0, .ok⟩], .poll 1 [], .adv 2]
+    let s' := stepS cfg s (.poll 1 [])
+    ((lookup s.callers 1).map fun cl => (cl.phase, recovered cfg cl.atts s.now)) = some (.sleeping 2, true) ∧ s.now = 2 ∧
+    (readyOf s.rdy).1 = false ∧ s.b.tokens = 2 ∧
+    s'.log = [(0, .innerCall 1 0), (0, .innerDone 1 0 (.err 1)), (0, .withdraw 1 true), (2, .result 1 readyErr)] ∧
+    s'.b.tokens = 2 ∧ s'.deposits = 0 ∧
+    ((lookup s'.callers 1).map fun cl => (cl.phase, cl.grants, retries cl)) = some (.unready, [true], 0) := by decide
 
 /-- `max_attempts = 0` still makes one call; a zero back-off retries within the same poll; a
 per-request `max_attempts` of 2 stops after two calls although the script would go on. -/
@@ -663,9 +1072,9 @@ example :
     (run { max := 0, dyn := true, backoff := fun _ => 0 }
       [.arrive 1 none [⟨0, .err 1⟩, ⟨0, .ok⟩], .poll 1 [],
        .arrive 2 (some 2) [⟨0, .err 1⟩, ⟨0, .err 3⟩, ⟨0, .ok⟩], .poll 2 []]).log
-    = [.innerCall 1 0, .innerDone 1 0 (.err 1), .result 1 (.inner 1 0),
-       .innerCall 2 1, .innerDone 2 1 (.err 1), .innerCall 2 2, .innerDone 2 2 (.err 3),
-       .result 2 (.inner 3 2)] := by decide
+    = [(0, .innerCall 1 0), (0, .innerDone 1 0 (.err 1)), (0, .result 1 (.inner 1 0)),
+       (0, .innerCall 2 1), (0, .innerDone 2 1 (.err 1)), (0, .innerCall 2 2), (0, .innerDone 2 2 (.err 3)),
+       (0, .result 2 (.inner 3 2))] := by decide
 
 /-- the hypotheses of the per-request theorems are met by a request in mid-flight (sleeping) -/
 example :
@@ -703,7 +1112,7 @@ example :
         (fun p => ((p.2.atts.map (·.start)).reverse, p.2.sleeps.reverse, p.2.result)))
       = [([0, 731, 3631], [731000, 2900000], some (.ok 2))] ∧
     (run cfg [.arrive 1 none [⟨0, .err 1⟩, ⟨0, .ok⟩], .poll 1 [731000000]]).log
-      = [.innerCall 1 0, .innerDone 1 0 (.err 1)] := by decide
+      = [(0, .innerCall 1 0), (0, .innerDone 1 0 (.err 1))] := by decide
 
 /-- **a saturated jittered back-off is never "no back-off"**: `ExponentialRandomBackoff::new(Duration::MAX, 0.0)` has the
 envelope [`Duration::MAX` − tolerance, `Duration::MAX`]; an interval function answering 0 for it (the seeded change
@@ -714,9 +1123,9 @@ example :
     let cfg : Cfg := { max := 3, backoff := iv.lo, spread := iv.sp }
     2 ^ 63 * 1000000 ≤ iv.lo 0 ∧ iv.lo 0 + iv.sp 0 = durMaxUs ∧
     (run cfg [.arrive 1 none [⟨0, .err 1⟩, ⟨0, .ok⟩], .poll 1 [0], .adv 1000000000000, .poll 1 []]).log
-      = [.innerCall 1 0, .innerDone 1 0 (.err 1), .raw "choice-not-allowed"] ∧
+      = [(0, .innerCall 1 0), (0, .innerDone 1 0 (.err 1)), (0, .raw "choice-not-allowed")] ∧
     (run cfg [.arrive 1 none [⟨0, .err 1⟩, ⟨0, .ok⟩], .poll 1 [durMaxNs], .adv 1000000000000, .poll 1 []]).log
-      = [.innerCall 1 0, .innerDone 1 0 (.err 1)] ∧
+      = [(0, .innerCall 1 0), (0, .innerDone 1 0 (.err 1))] ∧
     ((run cfg [.arrive 1 none [⟨0, .err 1⟩, ⟨0, .ok⟩], .poll 1 [durMaxNs]]).callers.map (·.2.sleeps)) = [[durMaxUs]] := by
   decide
 
@@ -727,8 +1136,10 @@ example :
     let cfg : Cfg := { max := 4, backoff := fun _ => 2000, budget := some (bucket 3), b0 := ⟨3, 3⟩, rdy := ['r', 'p', 'e'] }
     let s := run cfg [.arrive 1 none [⟨0, .err 1⟩, ⟨0, .err 1⟩, ⟨0, .ok⟩], .poll 1 [], .adv 2, .poll 1 [], .adv 2, .poll 1 [],
                       .arrive 2 none [⟨0, .err 1⟩, ⟨0, .ok⟩], .poll 2 [], .adv 2, .poll 2 []]
-    s.log = [.innerCall 1 0, .innerDone 1 0 (.err 1), .innerCall 1 1, .innerDone 1 1 (.err 1), .result 1 readyErr,
-             .innerCall 2 2, .innerDone 2 2 (.err 1), .innerCall 2 3, .innerDone 2 3 .ok, .result 2 (.ok 3)] ∧
+    s.log = [(0, .innerCall 1 0), (0, .innerDone 1 0 (.err 1)), (0, .withdraw 1 true),
+             (2, .innerCall 1 1), (2, .innerDone 1 1 (.err 1)), (2, .withdraw 1 true), (4, .result 1 readyErr),
+             (4, .innerCall 2 2), (4, .innerDone 2 2 (.err 1)), (4, .withdraw 2 true),
+             (6, .innerCall 2 3), (6, .innerDone 2 3 .ok), (6, .result 2 (.ok 3))] ∧
     s.b.tokens = 1 ∧ s.callers.map (fun p => (p.1, p.2.phase)) = [(2, .done), (1, .unready)] := by decide
 
 /-- readiness that pends delays the retry, never the other way round: the service instance needs 5 ms after each call
@@ -750,8 +1161,8 @@ example :
            budget := some { withdraw := fun b => ([true, false].getD b.tokens false, { b with tokens := b.tokens + 1 }),
                             deposit := fun b => b } }
       [.arrive 1 none [⟨0, .err 1⟩, ⟨0, .err 1⟩, ⟨0, .err 1⟩], .poll 1 []]).log
-    = [.innerCall 1 0, .innerDone 1 0 (.err 1), .innerCall 1 1, .innerDone 1 1 (.err 1),
-       .result 1 (.inner 1 1)] := by decide
+    = [(0, .innerCall 1 0), (0, .innerDone 1 0 (.err 1)), (0, .withdraw 1 true),
+       (0, .innerCall 1 1), (0, .innerDone 1 1 (.err 1)), (0, .withdraw 1 false), (0, .result 1 (.inner 1 1))] := by decide
 
 /-- the builder: `max_attempts_fn(|_| 5) … .max_attempts(2)` is a layer with the fixed limit 2 (two calls, not five,
 whatever the request carries); the other order is per request (the request's 4, the extractor's 5 without one); a repeated
